@@ -17,6 +17,20 @@ twice).  `entry` selects the entry point: `update_evidence_files` (api), `main(a
 `python -m picked_group_fdr.pipeline.update_evidence_from_pout` (module), or
 `pipeline.run_update_evidence` (pipeline: one merge per evidence file, each with all result files).
 The model and the oracle receive the files in the order GIVEN, never in path order.
+
+The csv layer (round 5, seeded C15-g): the evidence files are TEXT.  The case holds the cell values and a
+writing style per file (`ev_style`: quoting minimal / all / MaxQuant-lenient / mixed, line ends CRLF / LF /
+CR, final line end or not, BOM); `tsv_encode` (independent of the csv module) makes the bytes, the model
+(`merge_text`) gets the decoded text and answers the TEXT of the output file, which must equal the real
+output byte for byte; the oracle reads the real output with `tsv_parse` (an independent minimal reader of
+the dialect) and compares CELL VALUES with the join.  Cells carry everything the dialect can carry
+(quotes inside / at the start / doubled, commas, semicolons, blanks, empty, non-ASCII, tab and line
+breaks inside quotes) in header, matched, unmatched and MBR rows.
+
+The classification (round 5, seeded C15-h): the `Type` cell takes every MaxQuant value (MSMS, MULTI-MSMS,
+MULTI-SECPEP, MULTI-MATCH, MULTI-MATCH-MSMS, ISO-MSMS, empty) independently of whether the row has a scan
+number; the oracle's rule is the property's: a row WITHOUT scan number passes unchanged, a row WITH one is
+rewritten with the matched values or dropped.
 """
 import csv
 import os
@@ -46,6 +60,94 @@ RAWS = ["raw_1", "raw_2_b", "r3", "sample_x_y_z", "a__b", "raw_1_7"]
 MODS = ["AAAK", "AAM(ox)K", "(ac)AAAK", "CCCK", "M(ox)M(ox)K", "(ac)M(ox)K", "AAS(ph)K", "MK"]
 SCORES = ["2.5", "-0.125", "1e-05", "0.10", "3", "1E-3", "0.001", "10.75", "-1.5", "0.5", "1.0", "nan"]
 PEPS = ["0.001", "0.05", "0.5", "1.0", "1e-10", "0.010", "1", "2.5e-3"]
+
+
+TYPES = ["MSMS", "MULTI-MSMS", "MULTI-SECPEP", "MULTI-MATCH", "MULTI-MATCH-MSMS", "ISO-MSMS", ""]
+# cell values: everything the tab-separated dialect can carry
+EXOTIC = [
+    '5"-nucleotidase', '"starts with a quote', 'ends with a quote"', '""', '"', 'say ""hi""', '"fully quoted"', 'a"b"c',
+    "a,b", ",", "x;y;z", ";", " lead", "trail ", "  ", "", "", "\u00c4pfel \u00b5 \u03b2", "\u86cb\u767d\u8cea", "\U0001f9ec dna",
+    "tab\there", "line\nbreak", "cr\rlf\r\nmix", '"\t"', "'single'", "\\backslash\\", "\u00a0nbsp", "in\ufeffside", "nel\x85ls\u2028",
+    '3\' 5"', '"";"";""', "P1;5\"-NT;\"x\"",
+]
+EXOTIC_HEADERS = ["Protein names", 'Fasta "headers"', '"Quoted"', " Gene names", "Gene names ", "a,b", "x;y", "\u00b5-mass \u0394",
+                  "\u86cb\u767d", "", "Tab\there", '5"-end', 'Proteins "leading"', "Line\nbreak", '""']
+EXOTIC_RAWS = ['raw "q"', " raw_1", "r\u00e4w_5", "r,3;x", 'a"_b']
+EXOTIC_MODS = ['AA"K', "A K", "\u00c4AK"]
+FREE_COLUMNS = ("sequence", "proteins", "id", "intensity", "retention time")
+
+
+def tsv_encode(rows, style=None):
+    """The text of a tab-separated file holding these cell values — written WITHOUT the csv module.
+    style = {"quote": "minimal" | "all" | "lenient" | "mixed", "eol": "\r\n" | "\n" | "\r", "final_eol": bool}.
+    minimal: a cell is quoted iff it contains a tab, a quote, CR or LF (what csv.writer does);
+    all: every cell is quoted; mixed: every other cell is quoted as well;
+    lenient: the MaxQuant way — a quote inside a cell that does not START with one (and holds no tab / line
+    break) is written as it is (`5"-nucleotidase`): the standard reader takes it literally."""
+    style = style or {}
+    q, eol = style.get("quote", "minimal"), style.get("eol", "\r\n")
+    lines = []
+    for r, row in enumerate(rows):
+        if row == [""]:
+            lines.append('""')  # a record of one empty cell; an empty line is a record without cells
+            continue
+        out = []
+        for c, cell in enumerate(row):
+            must = any(ch in cell for ch in '\t"\r\n')
+            if q == "lenient" and must and not cell.startswith('"') and not any(ch in cell for ch in "\t\r\n"):
+                must = False
+            if must or q == "all" or (q == "mixed" and (r + c) % 2 == 0):
+                out.append('"' + cell.replace('"', '""') + '"')
+            else:
+                out.append(cell)
+        lines.append("\t".join(out))
+    if not lines:
+        return ""
+    final = style.get("final_eol", True) or rows[-1] == []
+    return eol.join(lines) + (eol if final else "")
+
+
+def tsv_parse(text):
+    """An independent minimal reader of the tab-separated dialect: records end at CRLF, LF or CR outside
+    quotes, cells are separated by tabs outside quotes; a cell that STARTS with a double quote runs to the
+    closing quote, a doubled quote inside standing for one quote; in any other cell every character is
+    literal (also a quote).  An empty line is a record without cells."""
+    rows, i, n = [], 0, len(text)
+    while i < n:
+        cells = []
+        if text[i] not in "\r\n":
+            while True:
+                if i < n and text[i] == '"':
+                    i += 1
+                    buf = []
+                    while i < n:
+                        if text[i] == '"':
+                            if i + 1 < n and text[i + 1] == '"':
+                                buf.append('"')
+                                i += 2
+                                continue
+                            i += 1
+                            break
+                        buf.append(text[i])
+                        i += 1
+                    while i < n and text[i] not in "\t\r\n":  # (malformed: text after the closing quote)
+                        buf.append(text[i])
+                        i += 1
+                    cells.append("".join(buf))
+                else:
+                    j = i
+                    while j < n and text[j] not in "\t\r\n":
+                        j += 1
+                    cells.append(text[i:j])
+                    i = j
+                if i < n and text[i] == "\t":
+                    i += 1
+                    continue
+                break
+        if i < n:
+            i += 2 if text[i] == "\r" and text[i + 1 : i + 2] == "\n" else 1
+        rows.append(cells)
+    return rows
 
 
 def perc_pep(m, rng):
@@ -113,8 +215,14 @@ class P(Prop):
             return {"psmid": psmid, "peptide": rng.choice(self.PEPT_STRINGS)}
         nfiles = rng.choice([1, 1, 2, 2, 3])
         raws = rng.sample(RAWS, rng.randint(2, 4))
-        res_raws = [r for r in raws if rng.random() < 0.8] or raws[:1]
         mods = rng.sample(MODS, rng.randint(2, 5))
+        exotic = rng.random() < 0.55  # cells / header names / raw files that need the whole dialect
+        if exotic and rng.random() < 0.3:
+            raws.append(rng.choice(EXOTIC_RAWS))
+        if exotic and rng.random() < 0.15:
+            mods.append(rng.choice(EXOTIC_MODS))
+        res_raws = [r for r in raws if rng.random() < 0.8] or raws[:1]
+        realistic_types = rng.random() < 0.4  # MULTI-MATCH exactly on the rows without scan number
         evidence = []
         keys = []
         idc = 0
@@ -130,6 +238,9 @@ class P(Prop):
                 hdr.insert(rng.randint(0, len(hdr)), "Intensity")
             if rng.random() < 0.08:
                 hdr.append("Score")  # duplicate column name: index() takes the first
+            if exotic:
+                for _ in range(rng.choice([0, 1, 1, 2, 3])):
+                    hdr.insert(rng.randint(0, len(hdr)), rng.choice(EXOTIC_HEADERS))
             if rng.random() < 0.4:
                 rng.shuffle(hdr)
             # what each column holds is decided by the canonical (first-occurrence, lower-case) name
@@ -155,7 +266,9 @@ class P(Prop):
                     "scan number": scan,
                     "score": "NaN" if mbr else rng.choice(["0.0", "10.5", "50.0", "-1"]),
                     "pep": "NaN" if mbr else rng.choice(["0.01", "0.2", "1"]),
-                    "type": "MULTI-MATCH" if mbr else rng.choice(["MSMS", "MULTI-MSMS", "MULTI-SECPEP"]),
+                    # every MaxQuant value, with and without a scan number (the Type cell decides nothing)
+                    "type": ("MULTI-MATCH" if mbr else rng.choice(["MSMS", "MULTI-MSMS", "MULTI-SECPEP"])) if realistic_types
+                    else rng.choice(TYPES),
                     "reverse": rng.choice(["", "+"]),
                     "potential contaminant": rng.choice(["", "+"]),
                     "proteins": rng.choice(["P1;P2", "REV__P1", "CON__P3", ""]),
@@ -170,7 +283,11 @@ class P(Prop):
                 if "ms/ms scan number" in names and "scan number" in names:
                     # the code prefers "ms/ms scan number": make the other one misleading
                     vals["scan number"] = str(rng.randint(1, 4))
-                row = [vals[n] for n in names]
+                if exotic:
+                    for n in FREE_COLUMNS:
+                        if rng.random() < 0.35:
+                            vals[n] = rng.choice(EXOTIC)
+                row = [vals[n] if n in vals else rng.choice(EXOTIC) for n in names]
                 seen_score = False
                 for i, n in enumerate(names):  # duplicate "score" column: second copy holds something else
                     if n == "score":
@@ -225,6 +342,14 @@ class P(Prop):
             pc = names.index("posterior_error_prob" if fmt == "native" else "mokapot pep")
             results.append({"ext": ext, "value_cols": [sc, pc], "rows": [hdr] + rows})
         case = {"evidence": evidence, "results": results}
+        # how each evidence file is written (None = what csv.writer would write)
+        case["ev_style"] = [
+            None if rng.random() < 0.35 else {
+                "quote": rng.choice(["minimal", "all", "lenient", "lenient", "mixed"]),
+                "eol": rng.choice(["\r\n", "\r\n", "\n", "\n", "\r"]),
+                "final_eol": rng.random() < 0.7,
+                "bom": rng.random() < 0.15,
+            } for _ in evidence]
         self._gen_naming(case, rng)
         # rare malformed inputs (at most one per case)
         r = rng.random()
@@ -326,6 +451,15 @@ class P(Prop):
         return (ev, res, list(range(ne)) if ev_args is None else ev_args,
                 list(range(nr)) if res_args is None else res_args, case.get("entry", "main"))
 
+    @staticmethod
+    def ev_style(case, i):
+        st = case.get("ev_style")
+        return (st[i] if st and i < len(st) and st[i] else None) or {}
+
+    def ev_text(self, case, i):
+        """the decoded text of evidence file i (what `open(..., encoding="utf-8-sig")` hands to the csv reader)"""
+        return tsv_encode(case["evidence"][i], self.ev_style(case, i))
+
     def given(self, case):
         """the evidence files and result files in the order GIVEN on the command line / to the function"""
         _, _, ev_args, res_args, _ = self._naming(case)
@@ -343,7 +477,11 @@ class P(Prop):
         for i, f in enumerate(case["evidence"]):
             p = os.path.join(d, ev_paths[i])
             os.makedirs(os.path.dirname(p), exist_ok=True)
-            self._write(p, f)
+            text = self.ev_text(case, i)
+            if tsv_parse(text) != f:
+                raise RuntimeError("harness: tsv_parse(tsv_encode(cells)) differs from the cells of evidence file %d" % i)
+            with open(p, "wb") as fh:
+                fh.write((b"\xef\xbb\xbf" if self.ev_style(case, i).get("bom") else b"") + text.encode("utf-8"))
         for i, r in enumerate(case["results"]):
             p = os.path.join(d, res_paths[i])
             os.makedirs(os.path.dirname(p), exist_ok=True)
@@ -393,9 +531,10 @@ class P(Prop):
         return cls.classify(tname.strip().split(".")[-1], msg.strip(), frames)
 
     @staticmethod
-    def _read_out(path):
-        with open(path, newline="") as fh:
-            return [list(r) for r in csv.reader(fh, delimiter="\t")]
+    def _read_text(path):
+        """the output file as text (the writer opens it without an encoding: the check runs in Python's UTF-8 mode)"""
+        with open(path, "rb") as fh:
+            return fh.read().decode("utf-8")
 
     def run_impl(self, case):
         if "psmid" in case:
@@ -443,7 +582,8 @@ class P(Prop):
                 if os.path.exists(out):
                     return {"err": enum, "published_despite_error": True}
                 return {"err": enum}
-            return {"rows": self._read_out(out)}
+            text = self._read_text(out)
+            return {"text": text, "rows": tsv_parse(text)}
         finally:
             shutil.rmtree(d, ignore_errors=True)
 
@@ -459,23 +599,26 @@ class P(Prop):
             err = self.classify_exc(e)
             if err is None:
                 raise
-        files = []
+        texts = []
         for o in outs:
             if not os.path.exists(o):
                 break
-            files.append(self._read_out(o))
+            texts.append(self._read_text(o))
+        files = [tsv_parse(t) for t in texts]
         if err is None:
             if len(files) != len(outs):
                 raise RuntimeError("run_update_evidence returned without writing %s" % outs[len(files)])
-            return {"files": files}
+            return {"texts": texts, "files": files}
         # the call stops at the first file that fails: exactly the files before it are published
-        return {"err": err, "files": files}
+        return {"err": err, "texts": texts, "files": files}
 
     # ------------------------------------------------------------------ the model
     def model_request(self, case, impl_out):
         if "psmid" in case:
             return {"op": "psmid", "psmid": case["psmid"], "peptide": case["peptide"]}
-        evidence, results = self.given(case)
+        _, results = self.given(case)
+        ev_args = self._naming(case)[2]
+        evidence = [self.ev_text(case, i) for i in ev_args]  # the TEXT of the files, in the order given
         raw = []
         for r in results:
             rows = [list(x) for x in r["rows"][:1]]
@@ -490,22 +633,25 @@ class P(Prop):
                 rows.append(row)
             raw.append(rows)
         if self._naming(case)[4] == "pipeline":
-            return [{"op": "merge", "evidence": [f], "results_raw": raw} for f in evidence]
-        return {"op": "merge", "evidence": evidence, "results_raw": raw}
+            return [{"op": "merge_text", "evidence_text": [f], "results_raw": raw} for f in evidence]
+        return {"op": "merge_text", "evidence_text": evidence, "results_raw": raw}
 
     def model_view(self, case, resp, impl_out):
         if isinstance(resp, list):  # pipeline entry: one merge per evidence file, stops at the first error
-            files = []
+            texts = []
             for r in resp:
-                if not isinstance(r, dict) or "rows" not in r:
+                if not isinstance(r, dict) or "text" not in r:
                     if isinstance(r, dict) and set(r) == {"err"}:
-                        return {"err": r["err"], "files": files}
+                        return {"err": r["err"], "texts": texts}
                     return r
-                files.append(r["rows"])
-            return {"files": files}
+                texts.append(r["text"])
+            return {"texts": texts}
         return resp
 
     def impl_view(self, case, impl_out):
+        # the TEXT of the output file(s) is compared (byte for byte); the parsed cells are the oracle's business
+        if isinstance(impl_out, dict):
+            return {k: v for k, v in impl_out.items() if k not in ("rows", "files")}
         return impl_out
 
     # ------------------------------------------------------------------ the property, stated directly
@@ -600,9 +746,9 @@ class P(Prop):
         how = "%s entry, evidence given as %s, results as %s" % (entry, [ev_paths[i] for i in ev_args], [res_paths[i] for i in res_args])
         if entry == "pipeline":
             # one rescored file per evidence file; the call stops at the first malformed one
-            got_files = impl_out.get("files")
-            if got_files is None:
+            if impl_out.get("texts") is None:
                 return "no per-file output: %r" % (impl_out,)
+            got_files = [tsv_parse(t) for t in impl_out["texts"]]  # cell values, read with the independent reader
             for k, f in enumerate(evidence):
                 exp = self._expected([f], results)
                 if k >= len(got_files):
@@ -626,7 +772,7 @@ class P(Prop):
             return None
         if exp is None:
             return None  # malformed input the implementation tolerated: outside the property
-        why = self._diff(impl_out["rows"], exp)
+        why = self._diff(tsv_parse(impl_out["text"]), exp)  # cell values, read with the independent reader
         return "%s (%s)" % (why, how) if why else None
 
     @staticmethod
@@ -636,8 +782,12 @@ class P(Prop):
                 g = got[i] if i < len(got) else None
                 e = exp[i] if i < len(exp) else None
                 if g != e:
-                    return (f"output row {i}: got {g} but the header of the first file given / the join on (raw file, scan, "
-                            f"modified sequence) over the files in the order given gives {e}")
+                    cells = ""
+                    if g is not None and e is not None and len(g) == len(e):
+                        cells = " [cells " + ", ".join("%d: %r instead of %r" % (k, a, b) for k, (a, b) in enumerate(zip(g, e)) if a != b) + "]"
+                    return (f"output row {i} (cell values as read from the output file): got {g} but the header of the first file "
+                            f"given / the join on (raw file, scan, modified sequence) over the files in the order given - rows "
+                            f"without scan number unchanged, rows with one rewritten (score, PEP only) or dropped - gives {e}{cells}")
         return None
 
     # ------------------------------------------------------------------ bookkeeping
@@ -725,6 +875,41 @@ class P(Prop):
             f.append("duplicate_result_keys")
         if len({tuple(h.lower() for h in f0[0]) for f0 in case["evidence"] if f0}) > 1:
             f.append("headers_differ_between_files")
+        # round 5: the Type cell against the scan-number cell; what the cells carry; how the files are written
+        has_results = nres > 0
+        for f0 in case["evidence"]:
+            if not f0:
+                continue
+            names = [h.lower() for h in f0[0]]
+            n = "ms/ms scan number" if "ms/ms scan number" in names else "scan number"
+            if n not in names or "type" not in names:
+                continue
+            si, ti = names.index(n), names.index("type")
+            for r in f0[1:]:
+                if max(si, ti) < len(r) and r[ti] in TYPES:
+                    f.append("type=%s/%s%s" % (r[ti] or "(empty)", "scan" if r[si] != "" else "no-scan", "/results" if has_results else ""))
+        cells_in = [c for f0 in case["evidence"] for r in f0[1:] for c in r]
+        hdr_in = [c for f0 in case["evidence"] if f0 for c in f0[0]]
+        out_rows = [r for fl in impl_out.get("files", []) for r in fl] if "files" in impl_out else impl_out.get("rows", [])
+        cells_out = [c for r in out_rows[1:] for c in r]
+        for tag, pred in (("quote", lambda c: '"' in c), ("leading_quote", lambda c: c.startswith('"')), ("comma", lambda c: "," in c),
+                          ("semicolon", lambda c: ";" in c), ("blank_edge", lambda c: c != c.strip(" ")), ("non_ascii", lambda c: not c.isascii()),
+                          ("tab_or_linebreak", lambda c: any(ch in c for ch in "\t\r\n"))):
+            if any(pred(c) for c in hdr_in):
+                f.append("header_cell_with_" + tag)
+            if any(pred(c) for c in cells_in):
+                f.append("input_cell_with_" + tag)
+            if any(pred(c) for c in cells_out):
+                f.append("output_cell_with_" + tag + ("_after_rescoring" if has_results else "_after_concatenation"))
+        for i in range(len(case["evidence"])):
+            st = self.ev_style(case, i)
+            f.append("written=%s/%s%s%s" % (st.get("quote", "minimal"), {"\r\n": "CRLF", "\n": "LF", "\r": "CR"}[st.get("eol", "\r\n")],
+                                           "" if st.get("final_eol", True) else "/no-final-eol", "/BOM" if st.get("bom") else ""))
+        texts = impl_out.get("texts") if "texts" in impl_out else [impl_out.get("text", "")]
+        ev_args = self._naming(case)[2]
+        if texts and any(t for t in texts):
+            same = "".join(texts) == "".join(self.ev_text(case, i) for i in ev_args)
+            f.append("output_bytes_equal_input_bytes" if same else "output_bytes_differ_from_input_bytes")
         return f
 
     def shrink(self, case):
@@ -742,6 +927,8 @@ class P(Prop):
             """remove file i together with its name and its places in the order given"""
             del c[what][i]
             pk, ak = ("ev_paths", "ev_args") if what == "evidence" else ("res_paths", "res_args")
+            if what == "evidence" and c.get("ev_style"):
+                del c["ev_style"][i]
             if c.get(pk):
                 del c[pk][i]
             if c.get(ak) is not None:
@@ -777,14 +964,36 @@ class P(Prop):
                 c = copy.deepcopy(case)
                 del c["results"][i]["rows"][j]
                 yield c
+        # the plain way of writing the files
+        if any(case.get("ev_style") or []):
+            c = copy.deepcopy(case)
+            c["ev_style"] = [None for _ in ev]
+            yield c
+            for i in range(len(ev)):
+                if self.ev_style(case, i):
+                    for k, v in (("bom", False), ("final_eol", True), ("eol", "\r\n"), ("quote", "minimal")):
+                        if self.ev_style(case, i).get(k, v) != v:
+                            c = copy.deepcopy(case)
+                            c["ev_style"][i][k] = v
+                            yield c
         # drop a non-required evidence column
+        REQ = ("score", "pep", "raw file", "ms/ms scan number", "scan number", "modified sequence", "type", "reverse",
+               "potential contaminant")
         for i, f in enumerate(ev):
             if not f:
                 continue
             for j, h in enumerate(f[0]):
-                if h.lower() in ("sequence", "proteins", "id", "intensity", "retention time", "labeling state"):
+                if h.lower() not in REQ:
                     if all(len(r) == len(f[0]) for r in f):
                         c = copy.deepcopy(case)
                         for r in c["evidence"][i]:
                             del r[j]
+                        yield c
+        # a plain cell instead of one that needs the whole dialect
+        for i, f in enumerate(ev):
+            for j, r in enumerate(f):
+                for k, cell in enumerate(r):
+                    if cell in EXOTIC + EXOTIC_HEADERS and cell not in ("", "x") and not (j == 0 and cell.lower() in REQ):
+                        c = copy.deepcopy(case)
+                        c["evidence"][i][j][k] = "x"
                         yield c
